@@ -182,6 +182,7 @@ service AllKinds {
   rpc StreamStream (stream Req) returns (stream Rep);
   rpc EmptyIn (google.protobuf.Empty) returns (stream google.protobuf.Timestamp);
   rpc import (stream google.protobuf.Empty) returns (google.protobuf.Empty);
+  rpc OldWay (Req) returns (Rep) { option deprecated = true; }
 }
 ''',
 }
